@@ -40,6 +40,7 @@ def run(ctx):
         X.run_cases(ctx, 'lazy resize by the work-queue thread, destroy of the emptied table', impl, acases, nontrivial=lambda raw: ' free tb' in raw)
         X.run_cases(ctx, 'automatic resize at the maximum bucket count (order / chunk / mmap allocators)', impl, X.auto_resize_bound_cases(ctx), nontrivial=nontrivial)
         X.run_cases(ctx, 'resize (chunk / mmap allocators, unbounded max)', impl, X.gen(ctx, PROGS, n // 2, 'C09x', OCONFS), nontrivial=nontrivial)
+    X.auto_resize_probe(ctx)
     return finish(ctx, trusted=TRUSTED, rule='parking sweeps (every thread frozen at each step, incl. the resizer between size store, synchronize, unlink and free; updaters between reading size and '
                   'their cmpxchg), double parking (resizer stopped inside a shrink while a reader enters and obtains bucket pointers) + bursty schedules; tables of initial size 1-8, max 4/8/unbounded, with the '
                   'order, chunk and mmap allocators; resize requests incl. 0 and non powers of two; non-trivial = a bucket table was allocated or released during the run')
